@@ -193,11 +193,17 @@ impl<L: Language, N: Analysis<L>> EGraph<L, N> {
         let mut i = self.find_applied_id(i_orig);
         // i.m :: slots(i) -> X
         // i_orig.m :: slots(i_orig) -> X
-        if !i.slots().is_subset(&enode.slots()) {
+        // One shrink can uncover the next one (e.g. if the class refers to itself), so repeat
+        // until the class has no slot left that its e-node does not mention.
+        while !i.slots().is_subset(&enode.slots()) {
+            let before = i.slots().len();
             self.handle_shrink_in_upwards_merge(src_id);
 
             enode = self.find_enode(&enode);
             i = self.find_applied_id(&i);
+            if i.slots().len() >= before {
+                break;
+            }
         }
 
         let t = self.shape(&enode);
